@@ -20,6 +20,16 @@ CHECKS['C02'] = dict(
    note='Trusted: TLC, CommunityModules, g++; TeakDecodeTable.tla (transcribed once from the pinned decoder.h, frozen). '
         'The execution clause (second word consumed, never executed) is covered by the instruction-level traces of C01.',
    technique='TLA+ spec + TLC exhaustive enumeration + TLC validation of total decode dumps from the real code')
+CHECKS['C01'] = dict(
+   text='The reference semantics is an explicit TLA+ specification of the whole instruction set (332 handler overloads, decode, '
+        'fetch, repeat/loop bookkeeping, interrupt entry). Every one of the 65536 first words is executed by the real interpreter '
+        'from random well-formed states and TLC checks the complete post-state, the ordered memory access list and the outcome '
+        'class of each execution against the specification.',
+   design_ref='5.1',
+   note='Trusted: TLC, CommunityModules, g++; the TLA+ semantics is a frozen hand transcription of the PINNED interpreter (the '
+        'property names the pinned interpreter as the hardware-validated reference). States are sampled (k per opcode), not '
+        'enumerated; the arithmetic kernels are additionally proved exact at scaled width (C03/C04).',
+   technique='TLA+ instruction-set specification + TLC trace validation of single-instruction executions of the real interpreter')
 NOT_YET = {}
 def main():
     props = [json.loads(l)['id'] for l in open(os.path.join(V, 'properties.jsonl'))]
